@@ -59,6 +59,60 @@ assert all(temper(untemper(v)) == v for v in (0, 1, 0xffffffff, 0x80000000, 0x12
 def dbits(x):
     return "%016x" % struct.unpack("<Q", struct.pack("<d", x))[0]
 
+# ---- independent reference streams (the published recurrences, written from the papers, not from easel's loops) -------------
+M32 = 0xffffffff
+def mix3(a, b, c):
+    """Bob Jenkins' 96-bit mix as used by esl_mix3 (seed dispersion of the LCG / arbitrary seeds)"""
+    a = (a - b - c) & M32; a ^= c >> 13
+    b = (b - c - a) & M32; b ^= (a << 8) & M32
+    c = (c - a - b) & M32; c ^= b >> 13
+    a = (a - b - c) & M32; a ^= c >> 12
+    b = (b - c - a) & M32; b ^= (a << 16) & M32
+    c = (c - a - b) & M32; c ^= b >> 5
+    a = (a - b - c) & M32; a ^= c >> 3
+    b = (b - c - a) & M32; b ^= (a << 10) & M32
+    c = (c - a - b) & M32; c ^= b >> 15
+    return c
+
+class RefStream:
+    """word i of the stream of a seed: MT19937 (x[k+624] = x[k+397] ^ twist(x[k], x[k+1]), seeding x[z] = 69069 x[z-1]),
+    MT19937-64 (312/156, reference seeding), or the a=69069 c=1 LCG started at mix3(seed, 87654321, 12345678)"""
+    def __init__(self, kind, seed):
+        self.kind, self.seed, self.pos = kind, seed, 0
+        if kind == "mt32":
+            x = [seed & M32]
+            for z in range(1, 624): x.append((69069 * x[-1]) & M32)
+            self.x = x
+        elif kind == "mt64":
+            x = [seed & M64]
+            for z in range(1, 312): x.append((6364136223846793005 * (x[-1] ^ (x[-1] >> 62)) + z) & M64)
+            self.x = x
+        else:
+            v = mix3(seed & M32, 87654321, 12345678)
+            self.lcg = v if v else 42
+    def next(self):
+        self.pos += 1
+        if self.kind == "lcg":
+            self.lcg = (self.lcg * 69069 + 1) & M32
+            return self.lcg
+        x = self.x
+        if self.kind == "mt32":
+            k = len(x) - 624
+            y = (x[k] & 0x80000000) | (x[k + 1] & 0x7fffffff)
+            v = x[k + 397] ^ (y >> 1) ^ (0x9908b0df if y & 1 else 0)
+            x.append(v)
+            if len(x) > 4096: del x[:len(x) - 624]
+            return temper(v)
+        k = len(x) - 312
+        y = (x[k] & 0xFFFFFFFF80000000) | (x[k + 1] & 0x7FFFFFFF)
+        v = x[k + 156] ^ (y >> 1) ^ (0xB5026F5AA96619E9 if y & 1 else 0)
+        x.append(v)
+        if len(x) > 4096: del x[:len(x) - 312]
+        return temper64(v)
+
+_r = RefStream("mt64", 5489); assert _r.next() == 14514284786278117030      # published first output of init_genrand64(5489)
+FNV0, FNVP = 0xcbf29ce484222325, 0x100000001b3
+
 def float_facts_selftest(nsamp=4000, seed=12345):
     """Every field of `FloatFacts F B` (lean/EaselModel/Random/Deal64Abs.lean), the assumption list of the abstract-carrier
     theorem `rand64_deal_spec_abstract`, evaluated on IEEE binary64 (Python float = C double, same libm exp/log) with
@@ -156,7 +210,7 @@ class C09(Prop):
         "random_unit", "rand64_double_ranges", "deal_spec", "dchoose_nonzero",
         "rand64_deal_spec", "rand64_deal_spec_real", "rand64_deal_vprime_one_clamped", "rand64_deal_first_accepted",
         "uniformPositive_pos", "uniform_positive_unit", "gaussian_in_bounds", "gauss_table_sizes", "gamma_positive", "dirichlet_simplex",
-        "mem_bytes", "floatstring_fits", "samplers_replay", "mt_constants_published",
+        "mem_bytes", "floatstring_fits", "samplers_replay", "mt_constants_published", "model_constants_regenerated",
         "seed0_create_replays", "seed0_init_replays", "rand64_init_replays", "dump_in_bounds", "dump_in_bounds_reinit", "dump_prefix_out_of_bounds",
         "rand64_deal_spec_abstract", "rand64_deal_prefix_out_of_range", "rand64_deal_prefix_defect_carrier")] + ["EaselModel.MTP.fill_correct", "EaselModel.MTP.stream_eq_spec"]
     claimed = True
@@ -228,6 +282,9 @@ class C09(Prop):
 
     def _corpus(self):
         return [
+            # raw words across the first table boundary and two refills, against the reference recurrences (monitor) and the model
+            {"name": "raw-words-64", "ops": ["new64 seed=5489", "w64 k=700", "init64 seed=1", "w64 k=313", "new64 seed=18446744073709551615", "u64 k=311", "w64 k=2", "u64 k=310", "w64 k=3"]},
+            {"name": "raw-words-32", "ops": ["new32 seed=5489", "w32 k=1300", "init seed=1", "w32 k=625", "newfast seed=42", "w32 k=5", "init seed=42", "w32 k=5", "new32 seed=4294967295", "u32 k=623", "w32 k=3"]},
             {"name": "ref-5489-like", "ops": ["new32 seed=42", "u32 k=1", "u32 k=623", "u32 k=1", "u32 k=2000", "init seed=42", "u32 k=1"]},
             {"name": "seedzero", "ops": ["seedzero32", "seedzero64"]},
             {"name": "fchoose-trailing-zero-maxroll", "ops": ["new32 seed=42", "pokeraw w=%d" % untemper(0xffffffff),
@@ -290,7 +347,7 @@ class C09(Prop):
                         ops += self._sampler_ops(rng, mers)
                         if rng.random() < 0.5: ops.append("pos32")
                     elif q < 0.27:
-                        ops.append(rng.choice(["dump32", "pos32"]))
+                        ops.append(rng.choice(["dump32", "pos32", "w32 k=%d" % rng.choice([1, 3, 624, 625, rng.randrange(1, 1400)])]))
                     elif q < 0.30:      # Create vs CreateFast vs CreateTimeseeded in one history
                         k2 = rng.choice(["new32", "newfast"] + (["newtime"] if env else []))
                         ops.append(k2 if k2 == "newtime" else k2 + " seed=%d" % rng.choice([seed, seed, rng.randrange(1, 1 << 32)] + ([0] if env else [])))
@@ -352,7 +409,7 @@ class C09(Prop):
                     r = rng.random()
                     q = rng.random()
                     if q < 0.06:
-                        ops.append(rng.choice(["dump64", "pos64"]))
+                        ops.append(rng.choice(["dump64", "pos64", "w64 k=%d" % rng.choice([1, 3, 312, 313, rng.randrange(1, 700)])]))
                     elif q < 0.14:    # esl_rand64_Init on a used generator: same seed (replay), another seed, seed 0
                         ops.append("init64 seed=%d" % rng.choice([s64, s64, rng.randrange(1 << 32, 1 << 64), 2**64 - 1] + ([0] if env else [])))
                     elif r < 0.4:
@@ -410,8 +467,58 @@ class C09(Prop):
     def nontrivial(self, case, out):
         return len(out) >= 2 and all(l.startswith("ok") for l in out)
 
+    def _ref_monitor(self, case, out):
+        """the raw stream against the independent Python reference recurrences: after every seeding whose seed is reported, follow
+        the ops whose stream consumption is fixed (raw words, hashed runs, single uniform draws); any other op makes the position
+        unknown until the next seeding.  Reports the seed and the 0-based stream position of the first differing word."""
+        ref = {32: None, 64: None}
+        for op, l in zip(case["ops"], out):
+            w = op.split()
+            kv = dict(x.split("=", 1) for x in w[1:] if "=" in x)
+            o = w[0]
+            if not l.startswith("ok"): return None
+            if o in ("new32", "newtime", "newfast", "init", "new64", "init64"):
+                if not l.startswith("ok seed="): return None
+                sd = int(l[8:])
+                if o in ("new64", "init64"): ref[64] = RefStream("mt64", sd)
+                elif o == "init": ref[32] = RefStream(ref[32].kind, sd) if ref[32] else None
+                else: ref[32] = RefStream("lcg" if o == "newfast" else "mt32", sd)
+                if o == "init" and ref[32] is None: return None
+                continue
+            b = 64 if o in ("u64", "w64", "dbl64", "dblclosed", "dblopen", "int64", "roll64", "deal64", "pokeraw64", "pos64", "dump64") else 32
+            r = ref[b]
+            if o in ("env", "pos32", "pos64", "dump32", "dump64", "seedzero32", "seedzero64"): continue
+            if r is None: continue
+            name = {"mt32": "MT19937", "mt64": "MT19937-64", "lcg": "LCG(69069,1)"}[r.kind]
+            if o in ("w32", "w64"):
+                vals = [int(x) for x in l[3:].split(",") if x]
+                for v in vals:
+                    p0 = r.pos; e = r.next()
+                    if v != e:
+                        return Failure("monitor", "%s stream of seed %d: word at stream position %d is %d, the reference recurrence gives %d" % (name, r.seed, p0, v, e))
+            elif o in ("u32", "u64"):
+                k = int(kv.get("k", "1")); p0 = r.pos; h = FNV0; e = 0
+                for _ in range(k):
+                    e = r.next(); h = ((h ^ e) * FNVP) & M64
+                if l != "ok h=%016x last=%d" % (h, e):
+                    return Failure("monitor", "%s stream of seed %d: the %d words at stream positions %d..%d differ from the reference recurrence (got %s, reference last=%d)" % (name, r.seed, k, p0, p0 + k - 1, l, e))
+            elif o in ("random", "dbl64", "dblclosed", "dblopen", "int64"):
+                p0 = r.pos; e = r.next()
+                if o == "random": exp = "ok " + dbits(e / 4294967296.0)
+                elif o == "dbl64": exp = "ok " + dbits((e >> 11) * (1.0 / 9007199254740992.0))
+                elif o == "dblclosed": exp = "ok " + dbits((e >> 11) * (1.0 / 9007199254740991.0))
+                elif o == "dblopen": exp = "ok " + dbits(((e >> 12) + 0.5) * (1.0 / 4503599627370496.0))
+                else: exp = "ok %d" % (e >> 1)
+                if l != exp:
+                    return Failure("monitor", "%s stream of seed %d: %s at stream position %d returned %s, the documented function of the reference word %d is %s" % (name, r.seed, o, p0, l, e, exp))
+            else:
+                ref[b] = None      # consumption depends on the values: position unknown until the next seeding
+        return None
+
     def monitor(self, ctx, case, out):
-        # direct statements of the property on implementation output (ranges; reference stream is checked via the model)
+        f = self._ref_monitor(case, out)
+        if f: return f
+        # direct statements of the property on implementation output (ranges)
         for op, l in zip(case["ops"], out):
             w = op.split()
             kv = dict(x.split("=", 1) for x in w[1:] if "=" in x)
